@@ -5,6 +5,7 @@ import (
 	"fmt"
 	"io"
 	"math"
+	"strings"
 
 	"github.com/EliCDavis/polyform/formats/txt"
 	"github.com/EliCDavis/polyform/modeling"
@@ -138,6 +139,21 @@ func (mw MeshWriter) Write(mesh modeling.Mesh, writer io.Writer) error {
 	for _, prop := range writers {
 		builtWriters = append(builtWriters, prop.build(mesh, mw.Format))
 		properties = append(properties, prop.Properties()...)
+	}
+
+	// A property is found again by its name, which is a single blank-delimited
+	// token of its header line: a name that is empty, contains white space, or
+	// is used twice can not be read back
+	propertyNames := make(map[string]bool)
+	for _, prop := range properties {
+		name := prop.Name()
+		if fields := strings.Fields(name); len(fields) != 1 || fields[0] != name {
+			return fmt.Errorf("unable to write ply property %q: name must be a single word", name)
+		}
+		if propertyNames[name] {
+			return fmt.Errorf("unable to write ply property %q: name is used by more than one property", name)
+		}
+		propertyNames[name] = true
 	}
 
 	attributeLength := mesh.AttributeLength()
